@@ -400,6 +400,16 @@ class PEP(object):
 
         """
 
+        # Forget the solution of any previous solve:
+        # until this solve succeeds, no point, expression nor constraint has a (primal or dual) value.
+        for point in Point.list_of_leaf_points:
+            point._value = None
+        for expression in Expression.list_of_leaf_expressions:
+            expression._value = None
+        for constraint_or_psd in self._list_of_constraints_sent_to_wrapper + self._list_of_psd_sent_to_wrapper:
+            constraint_or_psd._dual_variable_value = None
+        self.G_value, self.F_value, self.residual = None, None, None
+
         # Create an expression that serve for the objective (min of the performance measures)
         self.objective = Expression(is_leaf=True)
 
